@@ -52,6 +52,7 @@ impl Env {
             Op::Ttl { k } => h.get_ttl(k),
             Op::GetHold { k, ms } => h.get_hold(k, ms),
             Op::GetYield { k } => h.get_yield(k),
+            Op::GetMaxCost { k } => h.get_max_cost(k),
             Op::Clear => h.clear(),
             Op::Wait => h.wait(),
             Op::MaxCost { m } => {
